@@ -59,6 +59,15 @@ def apply(pm, v):
             pm.icao(t)
         except Exception:  # noqa: BLE001 - their own correctness is judged elsewhere
             pass
+    if isinstance(fr, list) and len(fr) == 14 and v.get("id", 0) % 4 == 2 and v["fn"].startswith(("adsb.", "commb.", "surv.", "allcall.")):
+        # every fourth decoder call is preceded by the same decoder on a twin frame with the same payload under another
+        # downlink format (what a mis-routed message looks like; mostly a RuntimeError) - state left behind by a rejected
+        # call must not leak into the next one
+        try:
+            twin = [((20 if (fr[0] >> 3) in (17, 18) else 17) << 3) | (fr[0] & 7)] + list(fr[1:])
+            CALLS[v["fn"]](pm, dict(v, frame=twin))
+        except Exception:  # noqa: BLE001
+            pass
     limit = float(os.environ.get("VERIF_CALL_TIMEOUT", "120"))
     old = signal.signal(signal.SIGALRM, _on_alarm)
     signal.setitimer(signal.ITIMER_REAL, limit, 5.0)        # keeps firing: a bare `except:` in the library may swallow the first
@@ -271,6 +280,16 @@ def _ts(v):
     count quarter seconds (so that both stamps can fall into the same whole second), `dt` = 1 passes datetimes."""
     t0, t1 = v["t0"], v["t1"]
     q = 4.0 if v.get("tq") else 1.0
+    if v.get("dt") == 2:
+        # timezone-aware datetimes from two receivers in different zones: the later instant has the earlier wall-clock reading
+        import datetime
+        base = datetime.datetime(2020, 1, 1, 12, tzinfo=datetime.timezone.utc)
+        z0 = datetime.timezone(datetime.timedelta(hours=5 if t0 < t1 else -7))
+        z1 = datetime.timezone(datetime.timedelta(hours=-7 if t0 < t1 else 5))
+        return ((base + datetime.timedelta(seconds=t0 / q)).astimezone(z0), (base + datetime.timedelta(seconds=t1 / q)).astimezone(z1))
+    if v.get("dt") == 3:
+        import numpy as np
+        return (np.float64(t0 / q), np.float64(t1 / q)) if (v.get("tq") or (t0 + t1) % 2) else (np.int64(t0), np.int64(t1))
     if v.get("dt"):
         import datetime
         base = datetime.datetime(2020, 1, 1)
@@ -327,7 +346,18 @@ def _spwr(pm, v):
 
 @reg("common.cprNL")
 def _nl(pm, v):
-    return enc.res(pm.common.cprNL(v["x"]))
+    x = v["x"]
+    if v.get("id", 0) % 2:
+        # the same value first in other numeric types (what equal-comparing keys of a cache would conflate); their own
+        # results are not judged - single precision is not the documented argument type
+        import numpy as np
+        for t in (np.float32, np.float64):
+            try:
+                if float(t(x)) == x:
+                    pm.common.cprNL(t(x))
+            except Exception:  # noqa: BLE001
+                pass
+    return enc.res(pm.common.cprNL(x))
 
 
 # ---- Comm-B (C11, C12) ----
